@@ -113,6 +113,20 @@ class Server:
         return c
 
 
+class StagedServer(Server):
+    """n-th connection is served by stages[min(n, last)]: e.g. a healthy handshake and first probe, then a fault"""
+    def __init__(self, stages):
+        super().__init__()
+        self.stages = list(stages)
+
+    def new_conn(self, addr):
+        with self.lock:
+            st = self.stages[min(len(self.log), len(self.stages) - 1)]
+            c = Conn(st, addr, len(self.log))
+            self.log.append(c)
+        return c
+
+
 class Conn:
     def __init__(self, srv, addr, index):
         self.srv = srv
